@@ -19,6 +19,7 @@ RULE = (
     "concrete zero, ClaripyOperationError for byte-reversal of a non-byte width or an unsupported float sort.  "
     "Anything else (MemoryError, re.error, AssertionError, OverflowError, TypeError, truthiness errors from inside "
     "a rewrite, signals) is a violation.  Non-trivial: has an operator node; distinct by descriptor hash + debug flag."
+    " Session 4: the same constructions in threads that did not import claripy; wide IntToStr; integers as float constants."
 )
 ASSUMPTIONS = [
     "a per-construction alarm expiry (20 s) is reported as inconclusive (suspected hang), never as a violation",
